@@ -112,6 +112,32 @@ def main(argv):
                 for d in q["dis"]:
                     if impl_level(name, d) and name in P.get("search", []):
                         failing.append((name, d))
+    # escalate the search: a proof obligation or a correspondence broke and this run holds no failing input -
+    # run the correspondences of this property again with other seeds (other random programs, terms, histories)
+    escalated = []
+    if (modelonly or broken_proofs) and not failing and not a.replay and os.environ.get("VERIF_NO_ESCALATE") != "1":
+        for extra in (101, 202, 303):
+            ctx2 = Ctx(tier, seed + extra)
+            sr2 = {}
+            for stage, part in P["corr"]:
+                if stage in ("tb", "k8", "k10", "k3"):
+                    continue  # deterministic stages: nothing new under another seed
+                if stage not in sr2:
+                    try:
+                        sr2[stage] = CORRS[stage](ctx2)
+                    except Exception as e:  # a broken stage is reported by the main run already
+                        sr2[stage] = {"broken": str(e)}
+                r2 = sr2[stage]
+                if r2.get("broken"):
+                    continue
+                name = stage if part is None else f"{stage}:{part}"
+                dd = (r2.get("disagreements", []) if part is None else r2["parts"][part]["dis"])
+                for d in dd:
+                    if ("props" not in d or pid in d["props"]) and impl_level(name, d):
+                        failing.append((name, dict(d, found_with_seed=seed + extra)))
+            escalated.append(seed + extra)
+            if failing:
+                break
     failing.sort(key=lambda x: x[1].get("size", 0))
     for name, pr in broken:
         found = bool(pr.get("crash"))
@@ -216,6 +242,7 @@ def main(argv):
             "correspondences": {c: {"inputs": r.get("n", 0), "disagreements": r.get("n_dis", 0)} for c, r in corr_results.items()},
             "stages": stage_cov,
             "known_findings": kf_report,
+            "search_escalated_to_seeds": escalated,
             "exhaustive": False,
         },
         "assumptions": props.TB_COMMON,
